@@ -119,6 +119,14 @@ class DecShapes:
                     out.append(self.tag_alt(its[j], impl, fn))
                     i = j + 1
                     continue
+                if j < n and its[j][0] == 'alt' and _mentions_byte(its[j][1], e[1]):
+                    # a dispatch on the byte that is not a `match byte { .. }` (an if / else-if chain, guards, ..): evaluate
+                    # the conditions for each of the 256 byte values and group the values by what happens next
+                    w = self.probed_tag_alt(sym.cat(*its[j:]), e[1], impl, fn)
+                    if w is not None:
+                        out.append(w)
+                        i = n
+                        continue
                 out.append(('prim', 'u8'))
             elif k == 'read':
                 out.append(('opaque', 'raw read of ' + sym.vstr(e[1])[:60]))
@@ -216,9 +224,44 @@ class DecShapes:
         s = strip(scrut)
         return s == ('byte', uid)
 
+    def probed_tag_alt(self, rest, uid, impl, fn):
+        from .rules.common import choose_arms
+
+        def spec(term, leaf):
+            outl = []
+            for e in items(term):
+                if e[0] == 'alt':
+                    ch = choose_arms(e, leaf)
+                    if len(ch) == 1:
+                        sub = spec(ch[0], leaf)
+                        outl.extend(items(sub))
+                        if _terminates(ch[0]):
+                            break
+                        continue
+                outl.append(e)
+            return sym.cat(*outl)
+        groups = {}
+        for b in range(256):
+            res = spec(rest, lambda v, b=b: b if strip(v) == ('byte', uid) else None)
+            groups.setdefault(sym.tstr(res), [res, []])[1].append(b)
+        arms = []
+        for key, (res, bs) in groups.items():
+            if _pure_err(res):
+                continue
+            if len(bs) > 40:
+                return None         # not a tag dispatch: most byte values are accepted alike
+            w = self.term_shape(res, impl, fn)
+            for b in bs:
+                arms.append((b, w))
+        return ('alt', sorted(arms, key=lambda a: a[0]))
+
     def tag_alt(self, alt, impl, fn):
         arms = []
         for d, x in alt[2]:
+            if _pure_err(x) and not (isinstance(d, tuple) and d[0] == 'guard'):
+                # a rejecting arm, however its pattern is written (`_`, `2..=u8::MAX`, a list): contributes nothing to the
+                # shape; that exactly the right bytes are rejected is C03 R03.1
+                continue
             if isinstance(d, tuple) and d[0] == 'pat' and d[2] and len(d[2]) == 1 and d[2][0][0] == d[2][0][1]:
                 arms.append((d[2][0][0], self.term_shape(x, impl, fn)))
             elif isinstance(d, tuple) and d[0] == 'guard':
@@ -300,6 +343,23 @@ class DecShapes:
                     body = self.term_shape(x[2], impl, fn)
                     return ('seq', body), j - i + 1
         return None
+
+
+def _mentions_byte(scrut, uid):
+    found = []
+
+    def walk(v):
+        if isinstance(v, tuple):
+            if v == ('byte', uid):
+                found.append(1)
+                return
+            for x in v:
+                walk(x)
+        elif isinstance(v, list):
+            for x in v:
+                walk(x)
+    walk(scrut)
+    return bool(found)
 
 
 def _guard_const(g):
